@@ -252,4 +252,5 @@ let main args =
   match args with
   | ["model"] -> per_trace run_model lines
   | ["monitor"; pid] -> per_trace (Pmonitors.run_monitor pid parse_cfg parse_label parse_obs) lines
+  | ["wf"] -> per_trace (Pwf.run_wf parse_cfg parse_label) lines
   | _ -> failwith "pool: mode"
